@@ -30,6 +30,7 @@ def main():
     ap.add_argument("--budget", default="20")
     ap.add_argument("--skip-tests", action="store_true")
     ap.add_argument("--jobs", type=int, default=4)
+    ap.add_argument("--record", action="store_true", help="store the outcome in meta.json")
     a = ap.parse_args()
     sdir = os.path.join(VERIF, "seeded", a.name)
     meta = json.load(open(os.path.join(sdir, "meta.json")))
@@ -76,6 +77,15 @@ def main():
     finally:
         shutil.rmtree(scratch, ignore_errors=True)
     print(json.dumps(report, indent=1))
+    if a.record:
+        v = meta.setdefault("verified", {})
+        v["demo_on_unchanged_tree"] = report.get("demo_unchanged")
+        v["demo_with_change"] = report.get("demo_changed")
+        if "repo_tests_with_change" in report:
+            v["repository_tests_with_change"] = report["repo_tests_with_change"]
+        v.setdefault("checks", {}).update({c: x for c, x in report.get("checks", {}).items()})
+        v["ran"] = f"tools/seed_eval.py {a.name} (tier {a.tier}, budget {a.budget}s per shard) on an export of /repo HEAD with patch.diff applied"
+        json.dump(meta, open(os.path.join(sdir, "meta.json"), "w"), indent=1)
     return 0
 
 
